@@ -18,14 +18,14 @@ RULE = ('Hypothesis point-set pairs (n1 2-30, n2 1-30) from labelled families: c
         'pair and (pairs found from >=2 chunks | seam straddled | |Dec|>80 | k-limited).')
 ASSUMPTIONS = ['chunksize >= 4 x matchlength (IDL documentation; what spheregroup enforces)',
                'grid bounded to <= 2e4 cells by enlarging the chunk size (memory of the chunk grid, not a property)',
-               'first list has >= 2 points; RA in [0,360), |Dec| <= 89.9999',
+               'first list has >= 2 points; RA in [0,360), |Dec| < 90 (down to 1e-13 deg from a pole)',
                'separations within 1e-7 relative (+1e-11 deg) of the match length are accepted either way']
 
 
 @st.composite
 def case_strategy(draw):
     ml = 10 ** (draw(st.integers(-40, 15)) / 10.0) * (1 + 0.1 * draw(G.unitf))
-    fam = draw(st.sampled_from(['cluster', 'cluster', 'seam', 'seam', 'polar', 'allsky', 'lattice', 'copy', 'chain', 'polar-ring', 'polar-ring']))
+    fam = draw(st.sampled_from(['cluster', 'cluster', 'seam', 'seam', 'polar', 'allsky', 'lattice', 'copy', 'chain', 'polar-ring', 'polar-ring', 'pole-near']))
     if fam == 'polar-ring':
         ml = min(max(ml, 0.05), 3.0)
     if fam == 'allsky':
